@@ -227,6 +227,16 @@ func genReconn(r *Rng, prop string) *Scenario {
 			cfg.TimeoutUs = 0
 		}
 		faultFree = false
+	case "C19":
+		// an expired response timeout must be identifiable as RequestTimeoutError
+		cfg.ResponseTimeoutUs = r.pickI(2000, 3000, 5000)
+		dropKinds = true
+		cfg.TimeoutUs = 0
+		if keepalive {
+			cfg.PingIntervalUs = 20000
+			cfg.TimeoutUs = 15000
+		}
+		faultFree = false
 	case "C16", "C13":
 		cfg.PingIntervalUs = r.pickI(3000, 5000, 8000)
 		cfg.KeepAliveSec = 1
@@ -330,7 +340,7 @@ func genReconn(r *Rng, prop string) *Scenario {
 			w = []int{4, 4, 3, 1, 1, 1, 0, 1, 0, 6, 0, 0, 0}
 		case "C09":
 			w = []int{2, 2, 2, 2, 1, 4, 2, 5, 2, 0, 0, 0, 1}
-		case "C18":
+		case "C18", "C19":
 			w = []int{1, 1, 0, 0, 0, 0, 0, 0, 0, 0, 8, 4, 1}
 		case "C13":
 			w = []int{1, 1, 1, 1, 0, 1, 0, 1, 0, 0, 0, 0, 8}
@@ -345,7 +355,7 @@ func genReconn(r *Rng, prop string) *Scenario {
 		if !dropKinds && cfg.ResponseTimeoutUs == 0 && cfg.PingIntervalUs == 0 {
 			w[10], w[11], w[12] = 0, 0, 0
 		}
-		if cfg.PingIntervalUs == 0 && prop != "C18" {
+		if cfg.PingIntervalUs == 0 && prop != "C18" && prop != "C19" {
 			w[12] = 0
 		}
 		kinds := []string{"cutBefore", "cutAfter", "cutAfterResp", "cutAt", "writeErr", "connackRefuse", "connackNever", "dialErr", "dialStall", "sessionLoss", "dropB2C", "dropC2B", "silentFrom"}
@@ -488,6 +498,15 @@ func genReconn(r *Rng, prop string) *Scenario {
 		}
 	}
 
+	if prop == "C13" && !cfg.EarlyReply && r.chance(0.4) {
+		// the application pings as well, with a context that ends before the
+		// answer can arrive: an abandoned ping whose late PINGRESP must not be
+		// mistaken for the answer to the next keep-alive ping
+		rt := cfg.LatC2BUs + cfg.LatB2CUs
+		for i := 0; i < int(r.between(1, 3)); i++ {
+			sc.Ops = append(sc.Ops, Op{AtUs: connectAt + 3*(rt+cfg.DialLatUs) + r.between(0, lastOp+maxBackoff+20000), Actor: 7 + i, Kind: "ping", CtxTimeoutUs: r.between(1, rt-1)})
+		}
+	}
 	if prop == "C13" && !cfg.EarlyReply && r.chance(0.25) {
 		cfg.Yields = map[string]int64{"app.transportClose": r.pickI(10, 100, 500)}
 	}
